@@ -138,7 +138,7 @@ CHECKS = {
             'solver step-fraction settings, temperatures inside/on/outside the two-phase region, jumps up and down, all site types, fixed '
             'and adaptive grids with PSD recording) - every run must terminate at exactly the requested time with strictly increasing '
             'time stamps, equal-length finite histories, non-negative PSDs at every step, fractions/compositions in range. faults: for '
-            'each backend method every placement of 0 and 1 (thorough: also 2) documented "no result" answers among the first K=25 '
+            'each backend method every placement of 0 and 1 (thorough: also 2) documented "no result" answers among the first K=12 '
             '(thorough 40; pairs among 16) interceptable calls, on binary and ternary, both iterators, empty and preloaded PSD.',
             'Analytic backends; a fault is None for getGrowthAndInterfacialComposition, the previous/None impingement factor, (None, None) '
             'for getDrivingForce and the -1 marker for getInterfacialComposition; horizon 8000 (jumps 20000) steps = non-termination. '
